@@ -3,6 +3,7 @@
 package impl
 
 import (
+	"bytes"
 	"encoding/hex"
 	"fmt"
 	"strconv"
@@ -144,11 +145,16 @@ func runE(t []string) string {
 		if err != nil || !ok {
 			return "bad-op"
 		}
+		given := append([]byte{}, in...)
 		out, read, err := enc.Decode(in, n)
-		if err != nil {
-			return "err"
+		mod := ""
+		if !bytes.Equal(given, in) {
+			mod = " INPUT-MODIFIED"
 		}
-		return fmt.Sprintf("ok %s %d", Hex(out), read)
+		if err != nil {
+			return "err" + mod
+		}
+		return fmt.Sprintf("ok %s %d", Hex(out), read) + mod
 	}
 	return "bad-op"
 }
@@ -178,11 +184,16 @@ func runP(t []string) string {
 		if !ok {
 			return "bad-op"
 		}
+		given := append([]byte{}, in...)
 		n, read, err := p.DecodeLength(maxLen, in)
-		if err != nil {
-			return "err"
+		mod := ""
+		if !bytes.Equal(given, in) {
+			mod = " INPUT-MODIFIED"
 		}
-		return fmt.Sprintf("ok %d %d", n, read)
+		if err != nil {
+			return "err" + mod
+		}
+		return fmt.Sprintf("ok %d %d", n, read) + mod
 	}
 	return "bad-op"
 }
